@@ -14,6 +14,7 @@
 (*   "nocooldown" no sleep after the unhealthy reaction                                        *)
 (*   "nostable"   stable state not updated (reacts again on the next run of the same value)    *)
 (*   "periodfirst" period measured from the previous run's start (changeStart not reset)       *)
+(*   "flat"       the reading that starts a change is itself counted and evaluated             *)
 EXTENDS WatcherP, TLC
 
 CONSTANTS IVSet,       \* values of MinTimeBetweenCalls (ticks)
@@ -46,7 +47,7 @@ Iter(b, j, lat) ==
         cs == IF changed /\ Bug # "periodfirst" THEN t ELSE changeStart
         trg == IF changed THEN FALSE ELSE triggered
         enough == IF Bug = "count0" THEN cnt > 0 ELSE cnt >= N
-        fire == ~changed /\ enough /\ t - cs >= MS /\ ~trg /\ b # stable
+        fire == (~changed \/ Bug = "flat") /\ enough /\ t - cs >= MS /\ ~trg /\ b # stable
     IN
     /\ now' = t /\ lastRunAt' = t /\ started' = TRUE
     /\ lastState' = b /\ count' = cnt /\ changeStart' = cs
@@ -64,10 +65,10 @@ Iter(b, j, lat) ==
                    /\ coolUntil' = IF ~b THEN t + CD ELSE coolUntil
                    /\ nreact' = nreact + 1
                    /\ last' = [ev |-> "react", k |-> KindOf(b), t |-> t,
-                               ok |-> (AlternateOK(KindOf(b)) /\ afterObsLen >= N /\ t - afterObsStart >= MS /\ CooldownOK(t))]
+                               ok |-> (AlternateOK(KindOf(b)) /\ Qual(afterObsLen, t - afterObsStart) /\ CooldownOK(t))]
               ELSE /\ UNCHANGED <<lastReact, coolUntil, nreact>>
                    /\ last' = [ev |-> "obs", b |-> b, t |-> t, ok |-> TRUE]
-           /\ qualified' = (qualified \/ (afterObsLen >= N /\ t - afterObsStart >= MS))
+           /\ qualified' = (qualified \/ Qual(afterObsLen, t - afterObsStart))
     /\ tlast' = t
     /\ UNCHANGED <<N, MS, CD, IV>>
 
